@@ -46,6 +46,7 @@ struct EpCfg {
     std::vector<uint16_t> groups;         // TLS 1.3 / ECDHE groups (named group ids)
     int key_shares = 0;
     std::vector<uint16_t> sigalgs;
+    bool send_sni = false;                // client: put the expected name into a server_name extension (as applications do)
     int max_frag = 0;                     // client: request this max_fragment_length (512, 1024, 2048, 4096); 0 = none
     int ec_flags = 0;
     sslSessionId_t *sid = nullptr;        // client: durable resumption state
